@@ -226,6 +226,35 @@ def t_polar(k):
     return [str(M.jacobian_expr), str(M.metric_det_expr)], [], []
 
 
+def t_iface_mapped(k):
+    """three mapped patches in a row: the middle mapping is the plus side of one interface and the minus side of
+    the next; the lowered interface kernels must not depend on the order of the connectivity entries and the
+    join must not alter the mappings it is given"""
+    from sympde.topology import Square, Domain, ScalarFunctionSpace, elements_of, PolarMapping
+    from sympde.topology.mapping import LogicalExpr
+    from sympde.calculus import grad, dot, minus, plus
+    from sympde.expr import BilinearForm, integral
+    from sympde.expr.evaluation import TerminalExpr
+    A = Square('A', bounds1=(0, 1), bounds2=(0, 1))
+    B = Square('B', bounds1=(1, 2), bounds2=(0, 1))
+    C = Square('C', bounds1=(2, 3), bounds2=(0, 1))
+    maps = [PolarMapping('F%d' % i, 2, c1=0, c2=0, rmin=1, rmax=2) for i in (1, 2, 3)]
+    patches = [F(P) for F, P in zip(maps, (A, B, C))]
+
+    def mattrs():
+        return [{"content": repr(F._hashable_content()), "flags": str((F.is_minus, F.is_plus))} for F in maps]
+    before = mattrs()
+    conn = perm([((0, 0, 1), (1, 0, -1)), ((1, 0, 1), (2, 0, -1))], k)
+    Omega = Domain.join(patches, conn, 'Omega')
+    after = mattrs()
+    V = ScalarFunctionSpace('V', Omega, kind=None)
+    u, v = elements_of(V, names='u, v')
+    a = BilinearForm((u, v), integral(Omega.interfaces, dot(grad(minus(u)), grad(plus(v)))))
+    kernels = TerminalExpr(LogicalExpr(a, Omega), Omega.logical_domain)
+    res = sorted("%s: %s" % (str(kk.target), str(kk.expr)) for kk in kernels)
+    return res, before, after
+
+
 def t_shared_bc(k):
     """one EssentialBC object used by two equations whose trial functions come in a different order"""
     from sympde.topology import Square, ScalarFunctionSpace, element_of
@@ -249,7 +278,7 @@ def t_shared_bc(k):
     return [str(before), str(after)], [], []
 
 
-TARGETS = {"shared_bc": t_shared_bc, "bilinear": t_bilinear, "vector3d": t_vector3d, "logical": t_logical, "join": t_join, "union": t_union,
+TARGETS = {"iface_mapped": t_iface_mapped, "shared_bc": t_shared_bc, "bilinear": t_bilinear, "vector3d": t_vector3d, "logical": t_logical, "join": t_join, "union": t_union,
            "equation": t_equation, "norm": t_norm, "polar": t_polar}
 
 
